@@ -11,7 +11,7 @@ from . import gen, model as M, sut, world as W
 
 
 def base_cfg(binary, rng=None, max_joins=None, password=None, default_modes=(), preconf=True,
-             extra_channels=(), oper_masks=None):
+             extra_channels=(), oper_masks=None, reg_users=()):
     """-> (server cfg dict for sut.make_config, model Config)"""
     ops = []
     mops = {}
@@ -28,10 +28,12 @@ def base_cfg(binary, rng=None, max_joins=None, password=None, default_modes=(), 
     channels += list(extra_channels)
     dm = {k: (l in default_modes) for k, l in (("invisible", "i"), ("oper", "o"), ("local_oper", "O"),
                                                 ("registered", "r"), ("wallops", "w"))}
-    scfg = dict(operators=ops, channels=channels, max_joins=max_joins, default_user_modes=dm,
+    # predefined users without own password or mask: whoever gives that user name is a registered (+r) user
+    users = [{"name": n, "nick": n + "-nick"} for n in reg_users]
+    scfg = dict(operators=ops, channels=channels, max_joins=max_joins, default_user_modes=dm, users=users,
                 password=sut.password_hash(binary, password) if password else None)
     mcfg = M.Config(max_joins=max_joins, password=password, default_modes=default_modes,
-                    operators=mops, channels=channels)
+                    operators=mops, channels=channels, users={n: (None, None) for n in reg_users})
     return scfg, mcfg
 
 
